@@ -424,10 +424,11 @@ def prebuild(ctx):
     ctx.coq_build_cached(ELIM_FILES[1:], deps=_fix_deps() + FIX_FILES[:2] + ELIM_FILES[:1], timeout=900)
     ctx.coq_build_cached(AFF_FILES[:1], deps=FIX_MODEL_DEPS + FIX_FILES[:1] + ELIM_FILES[:1], timeout=600)
     ctx.coq_build_cached(AFF_FILES[1:], deps=_fix_deps() + FIX_FILES[:2] + ELIM_FILES[:2] + AFF_FILES[:1], timeout=900)
-    from vlib import c14_pass, c14a_part, c14d_part, c14g_part
+    from vlib import c14_pass, c14a_part, c14d_part, c14g_part, c14l_part
     c14a_part.prebuild(ctx)
     c14d_part.prebuild(ctx)
     c14g_part.prebuild(ctx)
+    c14l_part.prebuild(ctx)
     c14_pass.prebuild(ctx)
 
 
@@ -926,6 +927,9 @@ def run(ctx):
     from vlib import c14g_part
     total += c14g_part.part_cfg_passes(ctx)
     ctx.log(f"cfg passes {time.time()-t:.0f}s"); t = time.time()
+    from vlib import c14l_part
+    total += c14l_part.part_small_passes(ctx)
+    ctx.log(f"small rewrite passes {time.time()-t:.0f}s"); t = time.time()
     from vlib import c14s_part
     total += c14s_part.part_stack(ctx)
     ctx.log(f"stack model {time.time()-t:.0f}s"); t = time.time()
